@@ -40,7 +40,7 @@ def cases(draw, tier="quick"):
         k = draw(st.lists(st.integers(0, nf - 1), min_size=1, max_size=4, unique=True))
     limit = draw(st.one_of(st.none(), st.integers(0, nlev - 1)))
     return dict(spec=spec, pos=draw(slicegen.positions(nlev)), mode=mode, fields=k, limit=limit, big=big,
-                serial=draw(st.booleans()),
+                serial=draw(st.booleans()), cli=draw(st.sampled_from([False, False, False, True])),
                 sched=dict(exec=[draw(st.lists(st.integers(0, 7), max_size=6)) for _ in range(nlev)]))
 
 
@@ -72,7 +72,7 @@ def check_case(case, ctx):
     names = plot.fields
     req = ["all"] if case["mode"] == "all" else [names[i] for i in case["fields"]]
     out_names = list(names) if case["mode"] == "all" else list(req)
-    ctx.label(*labs, "pos:" + pcls, f"normal:{cn}", "big" if case["big"] else "small")
+    ctx.label(*labs, "pos:" + pcls, f"normal:{cn}", "big" if case["big"] else "small", "cli" if case.get("cli") else "api")
     lo_n = plot.geo_lo[cn]
     kk0 = (p - lo_n) / plot.dx[0][cn] - 0.5
     ctx.nontrivial(L >= 1 and abs(kk0 - round(kk0)) > 1e-9)
@@ -81,8 +81,16 @@ def check_case(case, ctx):
         pools.set_schedule(None if case["serial"] else case["sched"])
         try:
             with poisoned_empty(pv):
-                m = qcall(Mandoline, "src", fields=list(req), limit_level=limit, serial=case["serial"], verbose=0)
-                qcall(m.slice, normal=cn, pos=parg, fformat="plotfile", outfile=f"out{i}")
+                if case.get("cli"):
+                    import amr_kitchen.mandoline.cli as cli
+                    argv = ["mandoline", "src", "-n", str(cn), "-f", "plotfile", "-o", f"out{i}", "-V", "0", "-v"] + list(req)
+                    argv += ["--position=" + repr(float(parg))] if parg is not None else []
+                    argv += ["-L", str(limit)] if limit is not None else []
+                    argv += ["-s"] if case["serial"] else []
+                    common.run_main(cli.main, argv)
+                else:
+                    m = qcall(Mandoline, "src", fields=list(req), limit_level=limit, serial=case["serial"], verbose=0)
+                    qcall(m.slice, normal=cn, pos=parg, fformat="plotfile", outfile=f"out{i}")
         except Exception as e:
             return [f"mandoline raised {type(e).__name__}: {e} (normal={cn} pos={p!r} class {pcls} limit={limit})"]
         finally:
